@@ -452,6 +452,10 @@ Fixpoint nmsg_size (n : node) : nat :=
          + (fix go (l : list node) : nat := match l with [] => 0 | x :: r => nmsg_size x + go r end) dflt)%nat
   | NMsgPluralCase _ _ bd =>
       (3 + (fix go (l : list node) : nat := match l with [] => 0 | x :: r => nmsg_size x + go r end) bd)%nat
+  (* MsgNode.Placeholder descends into a ListNode too (the parser puts none among the children of a message; the
+     budget must not run out on a tree that has one: Proofs/SafetyJsFuel.v) *)
+  | NList _ l =>
+      (2 + (fix go (l : list node) : nat := match l with [] => 0 | x :: r => nmsg_size x + go r end) l)%nat
   | _ => 1%nat
   end.
 Definition msg_size (l : list node) : nat := S (fold_right (fun x acc => (nmsg_size x + acc)%nat) 0%nat l).
